@@ -10,6 +10,7 @@ import (
 	beaconante "github.com/unification-com/mainchain/x/beacon/ante"
 	beacontypes "github.com/unification-com/mainchain/x/beacon/types"
 	entante "github.com/unification-com/mainchain/x/enterprise/ante"
+	entkeeper "github.com/unification-com/mainchain/x/enterprise/keeper"
 	enttypes "github.com/unification-com/mainchain/x/enterprise/types"
 	wrkante "github.com/unification-com/mainchain/x/wrkchain/ante"
 	wrktypes "github.com/unification-com/mainchain/x/wrkchain/types"
@@ -224,4 +225,14 @@ func H_C06_Ante() {
 	rt.Assert("C04.books-balance", booksBalanced(ae.E, books, rt.IntSub(locked, unlocked), books.Locked[1], rt.IntAdd(spent, unlocked), books.Spent[1]))
 	rt.Assert("C02.ante-mints-nothing", rt.And(ae.Bank.Minted.IsZero(), ae.Bank.Burned.IsZero()))
 	_ = enttypes.ModuleName
+}
+
+// anteChainOn: the same decorator chain bound to another node's bank ledger.
+func anteChainOn(ae *AnteEnv, e *Env) sdk.AnteHandler {
+	ek := entkeeper.NewKeeper(ae.E.Key, e.Bank, e.Bank, rt.Codec(), Authority())
+	return sdk.ChainAnteDecorators(
+		wrkante.NewCorrectWrkChainFeeDecorator(e.Bank, e.Bank, ae.W.K, ek),
+		beaconante.NewCorrectBeaconFeeDecorator(e.Bank, e.Bank, ae.B.K, ek),
+		entante.NewCheckLockedUndDecorator(ek),
+	)
 }
